@@ -11,7 +11,7 @@ import (
 	"github.com/tonistiigi/fsutil/zz_verif/v"
 )
 
-func nameOf(i int) string {
+func vh_nameOf(i int) string {
 	const digits = "0123456789"
 	return "n" + string([]byte{digits[i/100%10], digits[i/10%10], digits[i%10]})
 }
@@ -24,15 +24,15 @@ func VH_C04_backlog() {
 	n := v.Param("N", 300)
 	m.Reset()
 	dest := m.Root("dest")
-	view := &memFS{walkErrAt: -1, wholeReads: true}
+	view := &vh_memFS{walkErrAt: -1, wholeReads: true}
 	for i := 0; i < n; i++ {
-		view.entries = append(view.entries, &memEntry{stat: &types.Stat{Path: nameOf(i), Mode: modeFor(clsDir, 0755), Uid: 1, Gid: 1, ModTime: mtimeChoices[0]}})
+		view.entries = append(view.entries, &vh_memEntry{stat: &types.Stat{Path: vh_nameOf(i), Mode: vh_modeFor(vh_clsDir, 0755), Uid: 1, Gid: 1, ModTime: vh_mtimeChoices[0]}})
 	}
 	failAt := 1 + v.Choose("fail-at", 2)
 	useHasher := v.Bool("hasher-fails")
 	ctx, cancel := context.WithCancel(context.Background())
 	defer cancel()
-	s1, s2 := newStreamPair(ctx, 1024)
+	s1, s2 := vh_newStreamPair(ctx, 1024)
 	calls := 0
 	waitBacklog := func() {
 		// natively give the packet reader time to fill the queues (the interpreter's schedule does
@@ -49,17 +49,17 @@ func VH_C04_backlog() {
 				calls++
 				if calls == failAt {
 					waitBacklog()
-					return nil, errInjected
+					return nil, vh_errInjected
 				}
 			}
-			return &recHash{}, nil
+			return &vh_recHash{}, nil
 		},
 		NotifyHashed: func(ChangeKind, string, os.FileInfo, error) error {
 			if !useHasher {
 				calls++
 				if calls == failAt {
 					waitBacklog()
-					return errInjected
+					return vh_errInjected
 				}
 			}
 			return nil
